@@ -25,6 +25,56 @@ inductive Matches : R → Str → Prop where
   | starNil {a : R} : Matches (.star a) []
   | starCons {a : R} {s1 s2 : Str} : Matches a s1 → Matches (.star a) s2 → Matches (.star a) (s1 ++ s2)
 
+/-- characters the regular expression parser treats specially outside sets -/
+def parserSpecial (c : Nat) : Bool :=
+  c == 92 || c == 46 || c == 42 || c == 40 || c == 124 || c == 41 || c == 91 || c == 63 || c == 43 ||
+  c == 123 || c == 125 || c == 94 || c == 36
+
+/-- a character that no rewrite key starts with and the parser reads as itself -/
+def plainChar (c : Nat) : Bool :=
+  (rewriteTable.all fun p => p.1.head? != some c) && !parserSpecial c
+
+
+/-! ### wildcard patterns: `?`, `*` and ordinary characters -/
+
+/-- tokens of a simple OSC address pattern -/
+inductive STok where
+  | lit (c : Nat)
+  | any1                 -- `?`
+  | star                 -- `*`
+deriving Repr
+
+/-- concrete syntax -/
+def STok.print : STok → Str
+  | .lit c => [c]
+  | .any1 => [63]
+  | .star => [42]
+
+def sprint (p : List STok) : Str := p.flatMap STok.print
+
+/-- OSC 1.0 reading (wildcards may cross `/`, as liblo / sclang do; no character matches a newline) -/
+inductive SMatches : List STok → Str → Prop where
+  | nil : SMatches [] []
+  | lit {c : Nat} {p : List STok} {s : Str} : SMatches p s → SMatches (.lit c :: p) (c :: s)
+  | any1 {c : Nat} {p : List STok} {s : Str} : c ≠ 10 → SMatches p s → SMatches (.any1 :: p) (c :: s)
+  | star {p : List STok} {s1 s2 : Str} : (∀ c ∈ s1, c ≠ 10) → SMatches p s2 → SMatches (.star :: p) (s1 ++ s2)
+
+def STok.regex : STok → R
+  | .lit c => .chr c
+  | .any1 => .any
+  | .star => .star .any
+
+/-- the text the rewriting produces for one token -/
+def STok.text : STok → Str
+  | .lit c => [c]
+  | .any1 => [46]
+  | .star => [46, 42]
+
+def STok.ok : STok → Bool
+  | .lit c => plainChar c
+  | _ => true
+
+
 /-! ## (ii) the abstract responder machine
 
 The specification of "which responders fire".  The state is what a user of the library can say
